@@ -248,6 +248,14 @@ func (m *Model) Draw(win vaxis.Window) {
 
 	chars := m.content
 	cursor := col
+	// Nothing is scrolled away when everything fits (eg the window grew)
+	total := 0
+	for _, ch := range chars {
+		total += ch.Width
+	}
+	if total+col+scrolloff < winW {
+		m.offset = 0
+	}
 	// Make sure we've scrolled enough to have the cursor in the view
 	// (there is nothing left to scroll once the offset reaches the cursor, a
 	// window narrower than the scroll margin can never be satisfied)
